@@ -49,8 +49,7 @@ def spec_items(tier):
         yield from cut_family()
     else:
         yield from cut_family()
-        yield from build.enum_mdps(2, AS, 1, R3, build.subsets(2), build.INIT_MENU[2], [F(9, 10), F(1)])
-        yield from build.enum_mdps(3, [('a',), ('a', 'b')], 1, [F(-1), F(0)], [(), (2,)], build.INIT_MENU[3], [F(9, 10)])
+        yield from build.thorough_mdps(gammas=(F(9, 10), F(1)), nonpositive_when_undiscounted=False)
 
 
 def cut_family():
@@ -71,8 +70,9 @@ def items(tier, seed):
         if tier == 'quick':
             yield (it, (i + seed) % 6, (i // 6) % 2, ZERO[(i // 2 + seed) % 3])
         else:
-            for li in range(6):
-                yield (it, li, (i + li) % 2, ZERO[(i + li + seed) % 3])
+            for k in range(3):
+                li = (i + 2 * k + seed) % 6
+                yield (it, li, (i + k) % 2, ZERO[(i + k + seed) % 3])
 
 
 def with_zero_entry(spec_item, mode):
